@@ -49,10 +49,16 @@ def _in(tree, node):
 
 def _writer_roles(w) -> dict[str, str]:
     table: dict[str, str] = {}
-    rets = [n.value for n in ast.walk(w.node) if isinstance(n, ast.Return)
-            and isinstance(n.value, ast.Name)]
-    if len({x.id for x in rets}) == 1:
-        table[rets[0].id] = "data"
+    # the section dictionary: the local that receives `X["Section"] = ...`
+    stores: dict[str, int] = {}
+    for n in ast.walk(w.node):
+        if isinstance(n, ast.Subscript) and isinstance(
+                n.ctx, ast.Store) and isinstance(
+                n.value, ast.Name) and isinstance(
+                n.slice, ast.Constant) and isinstance(n.slice.value, str):
+            stores[n.value.id] = stores.get(n.value.id, 0) + 1
+    if stores:
+        table[max(stores, key=stores.get)] = "data"
     for l in ast.walk(w.node):
         if not (isinstance(l, ast.For) and isinstance(l.target, ast.Tuple)
                 and len(l.target.elts) == 2
